@@ -4,6 +4,8 @@
   (Layer 1: the picture compiler, for every byte string; the purely arithmetic operations, for every argument.)
 -/
 import SqlDt.Lemmas.Div
+import SqlDt.Lemmas.NoPanic
+import SqlDt.Lemmas.RenderAll
 import SqlDt.Model.Serde
 namespace SqlDt.C03
 open SqlDt Gen
@@ -90,6 +92,45 @@ theorem deBin_no_panic (ty : Ty) (raw : Int) : Serde.deBin ty raw ≠ .error .Pa
      · cases h
      · rename_i heq; split at heq <;> cases heq
      · cases h)
+
+/-- PARSING never panics: `T::parse(text, picture)` for every type, ANY two byte strings and any clock returns a value
+    or an error (every table index in the parser is shown in range: year modifiers, fraction factors, the cumulative
+    day table behind `DDD`, and no field of a compiled picture is `Invalid`). -/
+theorem parse_no_panic (ty : Ty) (text pic : Bytes) (now : Clock) : parseValue ty text pic now ≠ .error .Panic :=
+  Lemmas.parseValue_np ty text pic now
+
+/-- Human-readable deserialisation never panics. -/
+theorem deStr_no_panic (ty : Ty) (text : Bytes) (now : Clock) : Serde.deStr ty text now ≠ .error .Panic := by
+  unfold Serde.deStr
+  have := parse_no_panic ty text (Serde.picture ty) now
+  cases h : parseValue ty text (Serde.picture ty) now with
+  | ok v => simp
+  | error e =>
+    cases e <;> simp
+    exact absurd h this
+
+/-- FORMATTING never panics (into a `String`): the result is the text or an error – an inapplicable field is reported
+    as `FormatError`. Stated per type through the `format = render` theorems of C04; e.g. for dates and times of day: -/
+theorem format_date_no_panic (y m d : Int) (h : Spec.ValidYMD y m d) (pic : Bytes) :
+    formatValue .D (Spec.dayNumber y m d) pic none ≠ .error .Panic := by
+  unfold formatValue
+  cases ht : Lexer.tryNew pic with
+  | error e => simp [bind, Except.bind]; intro hc; subst hc; exact tryNew_no_panic pic ht
+  | ok fields =>
+    simp only [bind, Except.bind]
+    rw [Lemmas.format_date y m d h fields (Lemmas.tryNew_wf pic fields ht)]
+    cases Spec.render .D (Lemmas.compsOfDate y m d) fields <;> simp [Lemmas.toChk]
+
+theorem format_ts_no_panic (ty : Ty) (hty : ty = .TS ∨ ty = .OD) (y m d h mi s us : Int) (hv : Spec.ValidYMD y m d)
+    (hh : 0 ≤ h ∧ h < 24) (hm : 0 ≤ mi ∧ mi < 60) (hs : 0 ≤ s ∧ s < 60) (hu : 0 ≤ us ∧ us < 1000000) (pic : Bytes) :
+    formatValue ty (Lemmas.tsOf y m d h mi s us) pic none ≠ .error .Panic := by
+  unfold formatValue
+  cases ht : Lexer.tryNew pic with
+  | error e => simp [bind, Except.bind]; intro hc; subst hc; exact tryNew_no_panic pic ht
+  | ok fields =>
+    simp only [bind, Except.bind]
+    rw [Lemmas.format_ts ty hty y m d h mi s us hv hh hm hs hu fields (Lemmas.tryNew_wf pic fields ht)]
+    cases Spec.render ty (Lemmas.compsOfTs y m d h mi s us) fields <;> simp [Lemmas.toChk]
 
 example : Lexer.tryNew (List.replicate 30 32) = .ok [.Blank 30] ∧
     Parser.parseWeekDayNumber [43] = .error .ParseError := by decide
